@@ -98,4 +98,24 @@ var properties = map[string]*Property{
 		},
 		MustBePositive: []string{"time-sim/accepted-from-cache", "time-sim/accepted:introspection", "time-sim/accepted:generic-authn", "time-sim/accepted:remote-authorizer", "time-sim/accepted:contextualizer", "time-sim/accepted:jwks-cert", "time-sim/accepted:jwt-finalizer", "time-sim/accepted:client-credentials"},
 	},
+	"C11": {
+		ID: "C11",
+		Harnesses: []Harness{{
+			Name: "time-sim-c11", Property: "C11", Pkg: "./internal/verifsim/timesim", Test: "TestVerifC11",
+			Dirs:  append([]string{"internal/verifsim/timesim"}, exportDirs...),
+			Files: []string{"zz_verif_env_test.go", "zz_verif_crypto_test.go", "zz_verif_c11_test.go"},
+			CPU1:  true,
+			Quick:    Tier{Runs: 3000, BudgetS: 120},
+			Thorough: Tier{Runs: 150000, BudgetS: 1500},
+		}},
+		Rule: "one case = one seeded mechanism configuration (2-4 endpoint headers and values, payload template, optional rule-level override on a second rule sharing the prototype) and a history of 3-10 requests each differing from an earlier one in at most one component (subject, captured value, rule/override, client header) or identical, executed in two worlds from the same choice list (real in-memory cache / no cache) against stateless parties that echo a digest of everything they received; plus 24 repetitions of one allowed request inside the ttl. Non-trivial = history with at least two different requests and at least one allowed; distinct = distinct (configuration, history).",
+		Real: []string{"config loader", "mechanism catalogue and rule-level WithConfig", "remote authorizer", "generic contextualizer", "generic / oauth2_introspection authenticators", "jwt / oauth2_client_credentials / header finalizers", "endpoint, templates, values, subject hashing", "memory.Cache", "rule factory, repository, executor, decision handler chain"},
+		Stub: []string{"remote parties (stateless digest-echoing simnet handlers)", "no-cache world uses heimdall's own noop cache"},
+		Assumptions: []string{
+			"the parties' answers depend on URL, body and X-*/Authorization/Cookie headers only; RFC 7234 Vary handling and the HTTP-level cache key are not judged",
+			"jti/iat/nbf/exp of issued tokens are normalised before comparing the worlds",
+			"map iteration order cannot be seeded in Go: effectiveness is decided by 24 repetitions per case (a two-entry map disagrees with probability 1-2^-24)",
+		},
+		MustBePositive: []string{"time-sim-c11/effectiveness-checks", "time-sim-c11/allowed:remote-authorizer", "time-sim-c11/allowed:contextualizer", "time-sim-c11/allowed:generic-authn", "time-sim-c11/allowed:introspection", "time-sim-c11/allowed:jwt-finalizer", "time-sim-c11/allowed:client-credentials"},
+	},
 }
